@@ -15,7 +15,8 @@ from .. import ref
 from ..lab import LFS, make_odb
 from ..world import World, digest_obj, stamp, tick
 
-C = {"c1": b"aaaa", "c2": b"bbbb", "c3": b"cc", "big1": b"1" * (2**20 + 1), "big2": b"2" * (2**20 + 1)}
+# c2: CR LF text of c1's size (its legacy digest differs from its md5)
+C = {"c1": b"aaaa", "c2": b"b\r\nb", "c3": b"cc", "big1": b"1" * (2**20 + 1), "big2": b"2" * (2**20 + 1)}
 FILES = ["f1", "f2"]
 US = 500  # logical clock step: half a microsecond - all mutations fall into the same second, and neighbouring
 #           stamps share their microsecond (a token that rounds mtimes to microseconds would not tell them apart)
@@ -36,12 +37,16 @@ def alphabet():
     ops += [("serial", "json"), ("serial", "db")]
     # other algorithms sharing the same state: a sha256 hash of the file, and the file added to a sha256 store
     ops += [("hash-sha256", "f1"), ("add-sha256", "f1")]
+    # the legacy algorithm on the same state: staging into a md5-dos2unix store
+    ops += [("build-legacy",)]
+    # an in-place rewrite (same size, same inode) whose mtime lies before the epoch: -1 s, then -2 s, ...
+    ops += [("wneg", "f1")]
     # a user write that lands *during* a library call, between hashing and recording
     ops += [("build-midwrite", "f1"), ("hash-midwrite", "f1"), ("imd5-midwrite", "f1")]
     return ops
 
 
-MUT = {"w1", "w2", "w3", "repl", "replm", "touch", "rm"}
+MUT = {"w1", "w2", "w3", "repl", "replm", "touch", "rm", "wneg"}
 
 
 def cur(path):
@@ -126,6 +131,14 @@ def run_history(hist, init):
                                 fh.write(new)
                             os.utime(tmp, ns=(st0.st_mtime_ns, st0.st_mtime_ns))
                             os.rename(tmp, p)
+                    elif k == "wneg":
+                        if os.path.exists(p):
+                            old = open(p, "rb").read()
+                            cur_m = os.stat(p).st_mtime_ns
+                            new_m = -2_000_000_000 if cur_m == -1_000_000_000 else -1_000_000_000
+                            with open(p, "r+b") as fh:
+                                fh.write(bytes((b + 5) % 256 for b in old))
+                            os.utime(p, ns=(new_m, new_m))
                     elif k == "touch":
                         if os.path.exists(p):
                             stamp(p, US)
@@ -187,6 +200,17 @@ def run_history(hist, init):
                         _m, hi3 = hash_file(op_, LFS, "md5", state=state)
                         if hi3.value != ref.md5(data):
                             viol.append(("stale-hash/hash_file-of-stored-object", f"{hi3.value} at step {i} of {hist}"))
+                elif k == "build-legacy":
+                    if any(os.path.exists(paths[f]) for f in FILES):
+                        odbl = make_odb("local", w.p("odb-legacy"), state=state, hash_name="md5-dos2unix")
+                        _s, _m, objl = build(odbl, ws, LFS, "md5-dos2unix", dry_run=True)
+                        for key, _meta, hil in objl:
+                            answers += 1
+                            with open(paths[key[-1]], "rb") as fh:
+                                wantl = ref.digest("md5-dos2unix", fh.read())
+                            if hil.value != wantl:
+                                viol.append(("stale-hash/legacy-staging-answered-with-another-algorithms-digest",
+                                             f"{key[-1]}: {hil.value} != {wantl} at step {i} of {hist} init={init}"))
                 elif k == "sv":
                     p = paths[op[1]]
                     if os.path.exists(p):
